@@ -881,3 +881,54 @@ func (m *Model) parserNewError() *ssa.Function {
 	}
 	return nil
 }
+
+// PkgFuncOr: the package function by (reference) name, or — when it was renamed beyond recognition, turned into a
+// method, or merged — the unique function of the package that does what identifies it (pred). nil if ambiguous.
+func (m *Model) PkgFuncOr(pkg, name string, pred func(fn *ssa.Function) bool) *ssa.Function {
+	if fn := m.PkgFunc(pkg, name); fn != nil {
+		return fn
+	}
+	var found *ssa.Function
+	n := 0
+	for _, fn := range m.ModFns {
+		if fn.Blocks == nil || shortPkg(fnPkgPath(fn)) != pkg || fn.Parent() != nil || isSynthetic(fn) {
+			continue
+		}
+		if pred(fn) {
+			found = fn
+			n++
+		}
+	}
+	if n == 1 {
+		return found
+	}
+	return nil
+}
+
+// callsNamed: fn contains a static call to a function with this canonical name whose full name contains sub.
+func callsNamed(fn *ssa.Function, name, sub string) bool {
+	for _, b := range fn.Blocks {
+		for _, in := range b.Instrs {
+			if c, ok := in.(ssa.CallInstruction); ok {
+				if sc := c.Common().StaticCallee(); sc != nil && (canonFnName(sc) == name || sc.Name() == name) && strings.Contains(fnFullName(sc), sub) {
+					return true
+				}
+			}
+		}
+	}
+	return false
+}
+
+// readsGlobal: fn loads the package-level variable with this (reference) name.
+func readsGlobal(fn *ssa.Function, name string) bool {
+	for _, b := range fn.Blocks {
+		for _, in := range b.Instrs {
+			if ld, ok := in.(*ssa.UnOp); ok {
+				if g, isG := ld.X.(*ssa.Global); isG && canonGlobalName(g) == name {
+					return true
+				}
+			}
+		}
+	}
+	return false
+}
